@@ -53,12 +53,42 @@ def _any_sym(x, depth=0):
 
 
 # ---------------------------------------------------------------- G1
+import re as _re
+_SPEC = _re.compile(r'%(?:\((\w+)\))?[#0\- +]*(?:\*|\d+)?(?:\.(?:\*|\d+))?[hlL]?([diouxXeEfFgGcrsa%])')
+
+
+def _check_percent(template, operands):
+    """The text of a message is opaque (G1), but a formatting operation that Python would refuse must still be
+    refused: operand count and the kind required by each conversion (%d %f ... need a number) are checked here,
+    concretely for concrete operands and by type for symbolic ones."""
+    specs = [(m.group(1), m.group(2)) for m in _SPEC.finditer(template) if m.group(2) != '%']
+    if any(key for key, _ in specs):
+        return                                  # mapping-style formatting: not used by the code under analysis
+    ops = operands if isinstance(operands, tuple) else (operands,)
+    if len(ops) != len(specs):
+        if not (len(specs) == 1 and not isinstance(operands, tuple)):
+            raise TypeError('not all arguments converted during string formatting'
+                            if len(ops) > len(specs) else 'not enough arguments for format string')
+    for (_, conv), op in zip(specs, ops):
+        if conv in 'diouxXeEfFgG':
+            with NoTracing():
+                numeric = isinstance(op, (int, float)) or (
+                    _is_sym(op) and not isinstance(op, AnySymbolicStr) and
+                    getattr(op, 'python_type', None) in (int, float, bool))
+                known = numeric or not _is_sym(op)
+            if known and not numeric:
+                raise TypeError('%%%s format: a real number is required, not %s' % (conv, type(op).__name__))
+
+
 def _opaque_percent(self, other):
     if not isinstance(self, str):
         raise TypeError
     with NoTracing():
         if not _any_sym(self) and not _any_sym(other):
             return self.__mod__(other)
+        concrete_template = not _any_sym(self)
+    if concrete_template:
+        _check_percent(self, other)
     return "<msg>"
 
 
